@@ -83,6 +83,9 @@ impl Table for Srat {
     fn name(&self) -> &'static str {
         "srat"
     }
+    fn unjudged(&self, _ops: &[Op]) -> Vec<usize> {
+        vec![8] // table Revision: pinned to the baseline, not judged
+    }
     fn kinds(&self) -> &'static [&'static str] {
         &["memory_affinity", "generic_initiator_acpi", "generic_initiator_pci", "rintc_affinity"]
     }
@@ -227,10 +230,10 @@ pub const H_SLL: u8 = 1;
 pub const H_MSC: u8 = 2;
 
 pub fn sll_dims(shape: u16) -> (usize, usize) {
-    ((shape & 3) as usize, ((shape >> 2) & 3) as usize)
+    ((shape & 7) as usize, ((shape >> 3) & 7) as usize)
 }
 pub fn sll_shape(i: usize, t: usize, opts: u16) -> u16 {
-    (i as u16) | ((t as u16) << 2) | (opts << 4)
+    (i as u16) | ((t as u16) << 3) | (opts << 6)
 }
 pub fn sll_cell(f: &Fill, i: usize, j: usize) -> u16 {
     f.u16(4).wrapping_add(((i * 4 + j) as u16).wrapping_mul(0x0101))
@@ -265,10 +268,10 @@ pub fn real_sll_new(f: &Fill, shape: u16) -> hmat::SystemLocality {
 pub fn real_sll(f: &Fill, shape: u16) -> hmat::SystemLocality {
     let (ni, nt) = sll_dims(shape);
     let mut s = real_sll_new(f, shape);
-    if shape & 0x10 != 0 {
+    if shape & 0x40 != 0 {
         s.non_sequential_transfers();
     }
-    if shape & 0x20 != 0 {
+    if shape & 0x80 != 0 {
         s.minimum_transfer_size_required();
     }
     for i in 0..ni {
@@ -289,10 +292,10 @@ pub fn real_sll(f: &Fill, shape: u16) -> hmat::SystemLocality {
 pub fn ref_sll_with(w: &mut W, f: &Fill, shape: u16, inits: &[u32], tgts: &[u32], cells: &[u16]) {
     let (ni, nt) = sll_dims(shape);
     let mut flags = f.e(0, 4) as u8;
-    if shape & 0x10 != 0 {
+    if shape & 0x40 != 0 {
         flags |= 0x20; // bit 5: non-sequential transfers
     }
-    if shape & 0x20 != 0 {
+    if shape & 0x80 != 0 {
         flags |= 0x10; // bit 4: minimum transfer size required
     }
     w.u16(1).u16(0).u32((32 + 4 * ni + 4 * nt + 2 * ni * nt) as u32);
@@ -359,6 +362,9 @@ pub fn hmat_ref_entry(w: &mut W, op: &Op) {
 impl Table for Hmat {
     fn name(&self) -> &'static str {
         "hmat"
+    }
+    fn unjudged(&self, _ops: &[Op]) -> Vec<usize> {
+        vec![8] // table Revision: pinned to the baseline, not judged
     }
     fn kinds(&self) -> &'static [&'static str] {
         &["memory_proximity", "system_locality", "memory_side_cache"]
@@ -448,6 +454,20 @@ impl Table for Hmat {
             o += len;
         }
         Ok(v)
+    }
+    fn summary(&self, img: &[u8], ents: &[Ent]) -> Vec<u64> {
+        let mut v = vec![];
+        for e in ents {
+            match e.ty {
+                1 => {
+                    v.push(rd32(img, e.off + 12) as u64); // number of initiator proximity domains
+                    v.push(rd32(img, e.off + 16) as u64); // number of target proximity domains
+                }
+                2 => v.push(rd16(img, e.off + 30) as u64), // number of SMBIOS handles
+                _ => {}
+            }
+        }
+        v
     }
     fn fields(&self, k: u8, s: u16) -> Vec<FT> {
         use FT::*;
